@@ -13,11 +13,11 @@ pub struct C02;
 /// 'buffers' population: configurations and histories aimed at the fixed-capacity buffers of the
 /// state machine - chords with more participants than the small queues hold, one-shots whose
 /// payload has several modifiers tapped again and again (the one-shot key buffer), many macros at
-/// once, many held layers, many undecided tap-holds, switch conditions nested to the evaluator's stack depth - each followed by ordinary typing at the limit.
+/// once, many held layers, many undecided tap-holds, switch conditions nested to the evaluator's stack depth, list actions with empty lists and zero / boundary numbers - each followed by ordinary typing at the limit.
 fn gen_buffers(r: &mut Rng, seed: u64) -> Case {
     const KEYS: &[&str] = &["a", "b", "c", "d", "e", "f", "g", "h", "i", "j", "k", "l", "m", "n", "o", "p", "q", "r", "s", "t", "u", "v", "w", "x", "y", "z", "1", "2", "3", "4", "5", "6", "7", "8", "9", "0"];
     let mut case = Case { prop: "C02".into(), seed, ..Default::default() };
-    let kind = *r.pick(&["wide-chord-v2", "wide-chord-v2", "wide-chord-v1", "oneshot-mods", "macros", "layers", "tapholds", "switch-depth"]);
+    let kind = *r.pick(&["wide-chord-v2", "wide-chord-v2", "wide-chord-v1", "oneshot-mods", "macros", "layers", "tapholds", "switch-depth", "degenerate", "degenerate"]);
     case.set("population", "mapped");
     case.set("buffers", kind);
     case.set("mode", if r.chance(500) { "blocking" } else { "ticking" });
@@ -65,6 +65,56 @@ fn gen_buffers(r: &mut Rng, seed: u64) -> Case {
                 }
                 ops.push(Op::Gap(*r.pick(&[1u32, 50, 1500])));
             }
+        }
+        "degenerate" => {
+            // list actions with empty lists and zero / boundary numbers: whatever the parser lets
+            // through is pressed, held, repeated and released
+            let pool = [
+                "(tap-dance 200 ())", "(tap-dance-eager 200 ())", "(tap-dance 0 (a))", "(tap-dance-eager 0 (a b))", "(multi)", "(macro)", "(macro 0)", "(macro-repeat)",
+                "(macro-release-cancel)", "(fork a b ())", "(fork XX XX (a))", "(switch)", "(switch () XX break)", "(switch ((key-timing 1 lt 0)) a break)", "(one-shot 0 lsft)",
+                "(one-shot-press 65535 lsft)", "(tap-hold 0 0 a b)", "(tap-hold 65535 65535 a b)", "(tap-hold-release-keys 10 10 a b ())", "(tap-hold-except-keys 10 10 a b ())",
+                "(unmod)", "(unshift)", "(unmod () a)", "(layer-while-held l0)", "(layer-switch l0)", "(caps-word 0)", "(caps-word-custom 0 () ())", "(on-idle 0 tap-vkey v0)",
+                "(hold-for-duration 0 v0)", "(on-press tap-vkey v0)", "(sequence 0)", "(sequence 0 hidden-suppressed)", "(dynamic-macro-record-stop-truncate 0)",
+                "(dynamic-macro-record-stop-truncate 65535)", "(dynamic-macro-record 65535)", "(dynamic-macro-play 65535)", "(unicode \"\")", "(mwheel-up 0 0)", "(mwheel-up 1 1)",
+                "(movemouse-up 0 0)", "(movemouse-accel-up 0 0 0 0)", "(movemouse-accel-up 1 1 1 1)", "(setmouse 0 0)", "(movemouse-speed 0)", "(push-msg)", "(arbitrary-code 0)",
+                "(arbitrary-code 767)", "rpt-any", "rpt", "(release-key a)", "(release-layer l0)", "(macro 65535)", "(mwheel-accel-up 0 0 0 0)", "(mwheel-accel-up 1 1 1.0 1.0)",
+                "(multi (tap-dance 5 ()) a)", "(tap-dance 5 ((tap-dance 5 ())))", "(one-shot 10 (tap-dance 5 ()))", "(macro (unicode \"\"))",
+                "(hold-for-duration 65535 v0)", "(on-idle 65535 press-vkey v0)", "(switch ((input virtual v0)) a break)", "(switch ((layer l0)) a fallthrough () b break)",
+            ];
+            let keys = ["a", "b", "c", "d"];
+            // (one or two such actions per configuration: one rejected action rejects the file)
+            let mut acts: Vec<&str> = vec!["a", "b", "c", "d"];
+            acts[0] = *r.pick(&pool);
+            if r.chance(300) {
+                acts[1] = *r.pick(&pool);
+            }
+            case.cfg = format!(
+                "(defcfg concurrent-tap-hold {})\n(defsrc a b c d)\n(defvirtualkeys v0 {})\n(deflayer l0 {})\n(defseq v0 (a b))\n",
+                if r.chance(500) { "yes" } else { "no" },
+                *r.pick(&["x", "x", "XX", "(tap-dance 5 ())"]),
+                acts.join(" ")
+            );
+            let mut down: Vec<&str> = vec![];
+            for _ in 0..r.range(2, 14) {
+                let k = *r.pick(&keys);
+                if down.contains(&k) {
+                    if r.chance(400) {
+                        ops.push(Op::Repeat(code(k)));
+                    } else {
+                        ops.push(Op::Release(code(k)));
+                        down.retain(|x| *x != k);
+                    }
+                } else {
+                    ops.push(Op::Press(code(k)));
+                    down.push(k);
+                }
+                ops.push(Op::Gap(*r.pick(&[0u32, 1, 3, 10, 60, 250])));
+            }
+            for k in down {
+                ops.push(Op::Release(code(k)));
+                ops.push(Op::Gap(1));
+            }
+            ops.push(Op::Gap(700));
         }
         "switch-depth" => {
             // boolean expressions nested up to and beyond what the evaluator's stack holds, the
@@ -275,6 +325,18 @@ impl Prop for C02 {
             clock_jump_permille: *r.pick(&[0, 0, 20, 100]),
         };
         case.ops = gen_history(&mut r, &ho);
+        // bound the simulated time of one run: with something busy in every tick (a repeating or
+        // self-retriggering macro, mouse movement) a tick costs ~20 us in this build, and a history
+        // of 1.5 million ms would take longer than the per-run watchdog allows
+        let mut total: u64 = 0;
+        for op in case.ops.iter_mut() {
+            if let Op::Gap(n) = op {
+                if total > 300_000 && *n > 1_000 {
+                    *n = 1_000;
+                }
+                total += *n as u64;
+            }
+        }
         case.set("mode", if r.chance(500) { "blocking" } else { "ticking" });
         case
     }
